@@ -33,7 +33,8 @@ CLAIM = dict(
          "and the request renamed, the same error or outputs with the same series whose values are equal rationals at every time, for every solver that is a function of its input "
          "(six wrappers: literally identical for every solver); every graph quantity read (N, N_k, class counts, edge-type counts, NkNl matrices, mean degree, PGFs, Pnk, estimate_R0, "
          "neighbour counts) is invariant. (3) discrete_SIR with a table test and fast_nonMarkov_SIR with delay/duration tables: rows identical / per-node histories, infection and "
-         "recovery times and final statuses mapped through the relabelling, for any two iteration orders / tie policies (corollaries of the C12 / C11 characterisations).",
+         "recovery times, final statuses and transmissions() mapped through the relabelling, for any two iteration orders / tie policies (corollaries of the C12 / C11 characterisations); "
+         "fast_nonMarkov_SIS with rule tables: same rows, transmissions() and node histories renamed, whenever all event times are distinct (C13 + equivariance of the reference agenda semantics).",
     design='DESIGN.md section 4, C14; section 8.2 row C14',
     technique='Coq proof (node forms of the right-hand sides + transport of sums along permutations; esum handshake; BFS / shortest-path transport) + extracted relabelling action '
               'and decidable commutation statement evaluated on the Python right-hand sides and entry points',
